@@ -530,6 +530,12 @@ def run(repo: Repo, rep):
     r9_motion_params(repo, rep)
     from .c11 import r4_mirror  # barycentric pairs stay admissible only if the pairs with u + v >= 1 (and only those rows) are mirrored
     r4_mirror(repo, rep)
+    from .c13 import r5_copy_on_partial  # a partially evaluated domain keeps its own fixed values: samples of D(t=1) must not follow a later D(t=5)
+    r5_copy_on_partial(repo, rep)
+    from .c15 import r2_adaptive  # retained rows of the adaptive samplers stay whole rows (position and the parameters it was drawn for)
+    r2_adaptive(repo, rep)
+    from .c10 import r1_r2_formulas  # the volume-weighted acceptance of dependent products relies on the signed / analytic measures (an empty slice must not get positive weight)
+    r1_r2_formulas(repo, rep)
     from .c17 import r5_point_data  # samples of a partially evaluated product lie in it only if the fixed factor's Point has its coordinates in space order
     r5_point_data(repo, rep)
 
